@@ -10,6 +10,8 @@
 #include <unordered_set>
 #include <vector>
 #include <sys/mman.h>
+#include <link.h>
+#include <algorithm>
 #include <unistd.h>
 
 // The C allocator is part of the seam too: references to malloc / calloc / realloc / free made by the simulator's own objects (the library
@@ -200,20 +202,69 @@ void heap_begin_run(HeapPolicy policy, uint8_t fill_fresh, uint8_t fill_freed) {
     t_op_allocs = t_op_frees = 0; t_fail_at = 0; t_fault_fired = false;
 }
 
+namespace {
+// Which of the SUT blocks that outlive every harness-owned library object are still *referred to* by an object with static or thread storage
+// duration (a per-thread scratch stream, a one-slot cache, a lazily built table)?  Such a block is released when the thread or the process
+// ends: it is retained, not leaked - the definition LeakSanitizer uses.  Roots: the writable segments and the calling thread's TLS block of
+// every loaded object; the scan follows pointers through the retained blocks themselves.  Conservative in the direction of silence only: a
+// stale word that happens to equal a block address hides a leak, it never invents one.  Runs only when something is still live.
+struct Span { uintptr_t lo, hi; const void *base; bool sut_this_epoch; bool marked; };
+typedef std::vector<Span, MallocAlloc<Span>> SpanVec;
+struct ScanCtx { SpanVec *spans; std::vector<size_t, MallocAlloc<size_t>> *work; };
+// (reads whole segments, the sanitizer's own guard zones between globals included: not instrumented)
+__attribute__((no_sanitize("address"), noinline)) void scan_words(ScanCtx &c, uintptr_t lo, uintptr_t hi) {
+    lo = (lo + sizeof(void *) - 1) & ~(uintptr_t)(sizeof(void *) - 1);
+    SpanVec &v = *c.spans;
+    for (uintptr_t a = lo; a + sizeof(void *) <= hi; a += sizeof(void *)) {
+        const uintptr_t w = *(const volatile uintptr_t *)a;
+        if (w < v.front().lo || w > v.back().hi) continue;
+        size_t l = 0, r = v.size();
+        while (l < r) { size_t m = (l + r) / 2; if (v[m].hi < w) l = m + 1; else r = m; }
+        if (l < v.size() && v[l].lo <= w && w <= v[l].hi && !v[l].marked) { v[l].marked = true; c.work->push_back(l); }
+    }
+}
+int phdr_cb(struct dl_phdr_info *info, size_t, void *arg) {
+    ScanCtx &c = *(ScanCtx *)arg;
+    for (int i = 0; i < info->dlpi_phnum; i++) {
+        const ElfW(Phdr) &ph = info->dlpi_phdr[i];
+        if (ph.p_type == PT_LOAD && (ph.p_flags & PF_W)) scan_words(c, info->dlpi_addr + ph.p_vaddr, info->dlpi_addr + ph.p_vaddr + ph.p_memsz);
+        if (ph.p_type == PT_TLS && info->dlpi_tls_data) scan_words(c, (uintptr_t)info->dlpi_tls_data, (uintptr_t)info->dlpi_tls_data + ph.p_memsz);
+    }
+    return 0;
+}
+size_t g_last_retained_blocks = 0;
+}
+
 size_t heap_end_run() {
     State *s = S();
     PtrVec q;
     size_t live;
+    SpanVec spans;
     {
         Lock l;
         q.swap(s->quarantine);
         s->freed.clear(); s->quarantined.clear();
         s->run_active = false;
         live = s->live_sut_this_run;
+        g_last_retained_blocks = 0;
+        if (live) for (auto &kv : s->ledger) { const Entry &e = kv.second; if (e.sut && !e.huge) spans.push_back(Span{(uintptr_t)kv.first, (uintptr_t)kv.first + e.size, kv.first, e.epoch == s->epoch, false}); }
     }
     for (void *p : q) RAW_FREE(p);
+    if (live && !spans.empty()) {
+        std::sort(spans.begin(), spans.end(), [](const Span &a, const Span &b) { return a.lo < b.lo; });
+        std::vector<size_t, MallocAlloc<size_t>> work;
+        ScanCtx c{&spans, &work};
+        dl_iterate_phdr(phdr_cb, &c);
+        while (!work.empty()) { size_t k = work.back(); work.pop_back(); scan_words(c, spans[k].lo, spans[k].hi); }
+        size_t retained = 0;
+        for (const Span &sp : spans) if (sp.sut_this_epoch && sp.marked) ++retained;
+        g_last_retained_blocks = retained;
+        live = retained < live ? live - retained : 0;
+    }
     return live;
 }
+size_t heap_last_retained_blocks() { return g_last_retained_blocks; }
+size_t heap_sut_bytes_live() { State *s = S(); Lock l; size_t n = 0; for (auto &kv : s->ledger) if (kv.second.sut && !kv.second.huge) n += kv.second.size; return n; }
 
 size_t heap_live_sut_blocks() { State *s = S(); Lock l; return s->live_sut_this_run; }
 
